@@ -58,39 +58,42 @@ static const cfg_t cfgs[] = {
       { S3, O_SAMPLE }, { 0 } },
     { "tasklet cancel||run T@ES1, X observes", 1, K_TASK, 1, B_WAITREL,
       { O_CANCEL, O_JOIN, O_JOINX, O_FREE }, { S3 }, { 0 } },
-    { "free(P)||exit U@ES1 malloc stack, X cancels nothing", 1, K_ULTM, 1,
+    { "free(P)||exit U@ES1 malloc stack", 1, K_ULTM, 1,
       B_TEXIT, { O_SAMPLE, O_FREE }, { 0 }, { 0 } },
+    { "cancel(P) between slices U@ES0 spin, X observes", 1, K_ULT, 0, B_SPIN,
+      { O_YIELD, O_CANCEL, O_JOIN, O_JOINX, O_FREE }, { S3 }, { 0 } },
     /* ---- thorough ---- */
     { "cancel||yield U@ES1 spin, X+Y observe", 0, K_ULT, 1, B_SPIN,
-      { O_CANCEL, O_JOIN, O_JOINX, O_FREE }, { S3 }, { O_SAMPLE, O_SAMPLE } },
+      { O_CANCEL, O_JOIN, O_JOINX, O_FREE }, { O_SAMPLE, O_SAMPLE },
+      { O_SAMPLE } },
     { "cancel(X) then free(P) U@ES1 spin malloc", 0, K_ULTM, 1, B_SPIN,
       { O_SAMPLE, O_JOINX, O_FREE }, { O_CANCEL }, { 0 } },
     { "cancel(X)||set(Y)||join(P) U@ES1 eventual", 0, K_ULT, 1, B_EVWAIT,
-      { O_JOIN, O_JOINX, O_FREE }, { O_CANCEL, O_SAMPLE }, { O_SETEV, O_SAMPLE } },
+      { O_JOIN, O_JOINX, O_FREE }, { O_CANCEL }, { O_SETEV, O_SAMPLE } },
     { "cancel(X)||block U@ES0 eventual, P sets+joins", 0, K_ULT, 0, B_EVWAIT,
       { O_YIELD, O_SETEV, O_JOIN, O_JOINX, O_FREE },
       { O_CANCEL, O_SAMPLE, O_SAMPLE }, { 0 } },
     { "join(X)||exit U@ES0, P yields+observes", 0, K_ULT, 0, B_EXIT,
-      { O_SAMPLE, O_YIELD, O_SAMPLE, O_JOINX, O_SAMPLE, O_FREE }, { O_JOIN },
+      { O_SAMPLE, O_YIELD, O_SAMPLE, O_JOINX, O_FREE }, { O_SAMPLE, O_JOIN },
       { 0 } },
     { "join(X)||cancel(P) U@ES1 spin", 0, K_ULT, 1, B_SPIN,
       { O_SAMPLE, O_CANCEL, O_JOINX, O_SAMPLE, O_FREE }, { O_JOIN, O_SAMPLE },
       { 0 } },
     { "revive x2 U@ES1->ES1, X observes", 0, K_ULT, 1, B_RET,
       { O_JOIN, O_REVIVE1, O_JOIN, O_REVIVE1, O_JOIN, O_JOINX, O_FREE },
-      { S3, O_SAMPLE }, { 0 } },
+      { O_SAMPLE, O_SAMPLE }, { 0 } },
     { "revive after hand-off join U@ES0->ES0 exit, X observes", 0, K_ULT, 0,
       B_EXIT, { O_JOIN, O_REVIVE0, O_JOIN, O_JOINX, O_FREE }, { S3, O_SAMPLE },
       { 0 } },
     { "revive by X after X's join U@ES1, P observes", 0, K_ULT, 1, B_RET,
       { S3, O_JOINX, O_JOIN, O_FREE }, { O_JOIN, O_REVIVE1 }, { 0 } },
     { "tasklet revive T@ES1, X observes", 0, K_TASK, 1, B_RET,
-      { O_JOIN, O_REVIVE1, O_JOIN, O_JOINX, O_FREE }, { S3, O_SAMPLE }, { 0 } },
+      { O_JOIN, O_REVIVE1, O_JOIN, O_JOINX, O_FREE }, { S3 }, { 0 } },
     { "tasklet join(X)||run T@ES0", 0, K_TASK, 0, B_RET,
-      { O_YIELD, O_SAMPLE, O_JOINX, O_FREE }, { O_JOIN, O_SAMPLE }, { 0 } },
+      { O_YIELD, O_SAMPLE, O_JOINX, O_FREE }, { O_SAMPLE, O_JOIN }, { 0 } },
     { "cancel before first run U@ES0, X joins", 0, K_ULTM, 0, B_RET,
       { O_CANCEL, O_SAMPLE, O_YIELD, O_SAMPLE, O_JOINX, O_FREE },
-      { O_JOIN, O_SAMPLE }, { 0 } },
+      { O_SAMPLE, O_JOIN }, { 0 } },
     { "cancel(P)||waitrel ULT U@ES1 no sched point", 0, K_ULT, 1, B_WAITREL,
       { O_CANCEL, O_JOIN, O_JOINX, O_FREE }, { S3 }, { 0 } },
 };
@@ -110,6 +113,10 @@ static int nslices, keyset, dcount, freed;
 static int rec[3][MAXREC], nrec[3];
 static int xt[2] = { -1, -1 };
 static int has_cancel, nrevive;
+/* the canceller is the primary and the unit lives on the primary's stream: the
+ * request is then issued while the unit is neither running nor being popped,
+ * so a slice that starts with the request acknowledged is a violation */
+static int strict;
 
 /* ------------------------------------------------------------- automaton */
 #define QMAX 48
@@ -259,6 +266,9 @@ static void unit_real(void *arg)
     runs[my]++;
     abtmc_check(runs[my] == 1, "ran_twice",
                 "incarnation %d: function entered %d times", my, runs[my]);
+    if (strict)
+        abtmc_check(!abtmc_load(&released), "slice_after_cancel",
+                    "the unit was cancelled before its first run and runs");
     self_sample("start");
     if (!keyset) {
         OK(ABT_self_set_specific(key, &dcount));
@@ -281,6 +291,11 @@ static void unit_real(void *arg)
                 abtmc_check(!rel, "slice_after_cancel",
                             "the unit saw that ABT_thread_cancel had returned, "
                             "yielded, and was scheduled again");
+                if (strict)
+                    abtmc_check(!abtmc_load(&released), "slice_after_cancel",
+                                "the unit was READY in the pool when the "
+                                "cancel request was made and got another "
+                                "slice");
                 self_sample("after yield");
             }
         case B_EVWAIT: {
@@ -422,6 +437,8 @@ static void scenario(int cfg)
                  script_has(C->y, O_CANCEL);
     nrevive = script_has(C->p, O_REVIVE0) + script_has(C->p, O_REVIVE1) +
               script_has(C->x, O_REVIVE0) + script_has(C->x, O_REVIVE1);
+    strict = C->home == 0 && script_has(C->p, O_CANCEL) &&
+             (C->body == B_SPIN || C->body == B_RET || C->body == B_EXIT);
     q_build();
 
     abtmc_std_env();
